@@ -6,6 +6,7 @@ import (
 	"fmt"
 	"os"
 	"path/filepath"
+	"regexp"
 	"sort"
 	"strings"
 	"time"
@@ -66,6 +67,20 @@ func loadExpected(path string) *expectedFile {
 	return &e
 }
 
+var familyRe = regexp.MustCompile(`(~[0-9]+|/site[0-9]+|#[0-9]+)$`)
+
+// family: the contract clause / obligation kind an obligation is an instance of
+// (back-edge, call-site and ordinal suffixes removed).
+func family(name string) string {
+	for {
+		n := familyRe.ReplaceAllString(name, "")
+		if n == name {
+			return n
+		}
+		name = n
+	}
+}
+
 func namedKind(k string) bool {
 	switch k {
 	case "post", "inv", "variant", "lemma":
@@ -109,9 +124,12 @@ func report(o *Options, res *runResult, smtDir string, wall time.Duration) int {
 		return nil
 	}
 	expectedSet := map[string]bool{}
+	expectedFamilies := map[string]bool{}
 	if expected != nil {
 		for _, e := range expected.Obligations {
 			expectedSet[e] = true
+			unit, name, _ := strings.Cut(e, "::")
+			expectedFamilies[unit+"::"+family(name)] = true
 		}
 	}
 	replayDir := filepath.Join(o.Verif, "replays", o.Prop)
@@ -167,6 +185,11 @@ func report(o *Options, res *runResult, smtDir string, wall time.Duration) int {
 			if expectedSet[key] {
 				path := writeReplayNote(replayDir, ob.Unit, ob.Name, "obligation was discharged on the reference tree and is now undecided\n"+ob.Desc+"\nsolver output:\n"+ob.Output)
 				violations = append(violations, violation{ob.Unit, ob.Name, "was discharged, now undecided", path, false})
+			} else if expectedFamilies[ob.Unit+"::"+family(ob.Name)] {
+				// a new instance (another back edge, call site or ordinal) of a contract clause
+				// that was discharged on the reference tree
+				path := writeReplayNote(replayDir, ob.Unit, ob.Name, "a new instance of a clause that was discharged on the reference tree ("+family(ob.Name)+") cannot be discharged\n"+ob.Desc+"\nsolver output:\n"+ob.Output)
+				violations = append(violations, violation{ob.Unit, ob.Name, "clause " + family(ob.Name) + " was discharged, this instance is undecided", path, false})
 			} else {
 				undecidedNew = append(undecidedNew, key)
 			}
@@ -292,11 +315,11 @@ func writeEvidence(o *Options, res *runResult, violations []violation, knownHit,
 	trusted := map[string]bool{}
 	assumptions := map[string]bool{
 		"machine integers are treated as mathematical integers (no wrap-around) except in functions marked 'arith=bv'": true,
-		"float64 is treated as real arithmetic (no NaN, Inf or rounding)":                                             true,
-		"append returns a slice on a fresh backing array (aliases of the old array are not tracked)":                 true,
-		"nil-dereference panics are not checked unless the contract says 'checks=+nil'":                               true,
+		"float64 is treated as real arithmetic (no NaN, Inf or rounding)":                                              true,
+		"append returns a slice on a fresh backing array (aliases of the old array are not tracked)":                   true,
+		"nil-dereference panics are not checked unless the contract says 'checks=+nil'":                                true,
 		"termination is proved only for loops with a 'decreases' clause":                                               true,
-		"the SMT translation of go/ssa (NaiveForm) instructions is trusted (govc is the verifier)":                    true,
+		"the SMT translation of go/ssa (NaiveForm) instructions is trusted (govc is the verifier)":                     true,
 	}
 	var oblSamples []any
 	var allObls []any
